@@ -167,11 +167,23 @@ class Fec:
             self.n, self.k, self.code, self.cls, self.okattr = 20, 8, L.Golay2087, L.SlotType, "fec_parity_ok"
         else:
             self.n, self.k, self.code, self.cls, self.okattr = 16, 7, L.QuadraticResidue1676, L.EmbeddedSignalling, "emb_parity_ok"
+        # code word membership is decided with the reference copy of the ETSI Annex B.3 generator
+        # matrices (harness/reference/etsi_codes.json), not with the library's own tables
+        import os
+
+        ref = json.load(open(os.path.join(os.path.dirname(os.path.abspath(__file__)), "..", "reference", "etsi_codes.json")))
+        G = ref["golay2087" if kind == "slot" else "qr1676"]["G"]
         self.codewords = set()
+        self.lib_words = {}
         for m in range(2**self.k):
+            mb = [(m >> (self.k - 1 - i)) & 1 for i in range(self.k)]
+            w = [0] * self.n
+            for bit, row in zip(mb, G):
+                if bit:
+                    w = [a ^ b for a, b in zip(w, row)]
+            self.codewords.add("".join(str(x) for x in w))
             g = call(self.code.generate, int2ba(m, length=self.k))
-            if not is_err(g):
-                self.codewords.add("".join(str(int(x)) for x in g.tolist()))
+            self.lib_words[m] = g if is_err(g) else "".join(str(int(x)) for x in g.tolist())
 
     def out(self, o):
         if is_err(o):
@@ -182,8 +194,11 @@ class Fec:
 
     def run(self):
         ctx, n, k = self.ctx, self.n, self.k
-        if len(self.codewords) != 2**k:
-            ctx.fail("fec-generate", {"pdu": self.kind}, f"{self.code.__name__}.generate does not yield 2^{k} distinct words", expected=2**k, actual=len(self.codewords))
+        for m, w in self.lib_words.items():
+            ctx.case((self.kind, "generate", m))
+            if w not in self.codewords:
+                ctx.fail("generated-word-not-in-etsi-code", {"pdu": self.kind, "message": format(m, f"0{k}b"), "received": w if not is_err(w) else None},
+                         f"{self.code.__name__}.generate({format(m, f'0{k}b')}) is not a code word of the ETSI code (reference generator matrix)", expected="a code word", actual=w)
         if ctx.thorough():
             words = range(2**n)
         else:
@@ -223,6 +238,8 @@ class Fec:
                 ctx.case((self.kind, "self", cc, str(dt)))
                 if isinstance(dt, int):
                     pairs.append((f"slot.new {cc} {dt} 0", o if is_err(o) else f"{b01(o.fec_parity_ok)} {barg(w)}"))
+                if not is_err(w) and barg(w) not in self.codewords:
+                    ctx.fail("serialised-word-not-a-code-word", {"pdu": "slot", "fields": [cc, str(dt)], "received": barg(w)}, "a slot type built from fields serialises to a word that is not a Golay(20,8) code word", expected="a code word", actual=barg(w))
                 if is_err(p) or not p.fec_parity_ok or not o.fec_parity_ok:
                     ctx.fail("selfcheck", {"pdu": "slot", "fields": [cc, str(dt)]}, "a slot type built from fields does not parse back with fec_parity_ok", expected=True, actual=str(p if is_err(p) else p.fec_parity_ok))
         else:
@@ -235,6 +252,8 @@ class Fec:
                         ctx.case((self.kind, "self", cc, pi, str(lc)))
                         if isinstance(lc, int):
                             pairs.append((f"emb.new {cc} {pi} {lc} 0", o if is_err(o) else f"{b01(o.emb_parity_ok)} {barg(w)}"))
+                        if not is_err(w) and barg(w) not in self.codewords:
+                            ctx.fail("serialised-word-not-a-code-word", {"pdu": "emb", "fields": [cc, pi, str(lc)], "received": barg(w)}, "an EMB built from fields serialises to a word that is not a QR(16,7) code word", expected="a code word", actual=barg(w))
                         if is_err(p) or not p.emb_parity_ok or not o.emb_parity_ok:
                             ctx.fail("selfcheck", {"pdu": "emb", "fields": [cc, pi, str(lc)]}, "an EMB built from fields does not parse back with emb_parity_ok", expected=True, actual=str(p if is_err(p) else p.emb_parity_ok))
         if not ctx.search_only and ctx.driver_ok:
